@@ -627,6 +627,101 @@ def handleFactory (inp obs : List String) : String :=
       else "BADLINE"
   | _ => "BADLINE"
 
+/-! ### C17: the kernel of the pest overpopulation move -/
+
+def hexRat? (key tok : String) : Option Rat := ((kv? key tok).bind parseHexFloat?).bind FloatFn.toRat?
+
+/-- The 16 configuration tokens of a `kern.overpop` line: `KernelConfig` and the leaving scale coefficient. -/
+def overpopConfig? (toks : List String) : Option (KernelConfig × Rat) :=
+  match toks with
+  | [rows, cols, ew, ns, stoch, pct, shape, nt, nscale, nd, nk, coef, atype, ad, nmin, nmax] => do
+    let rows ← parseInt? rows; let cols ← parseInt? cols
+    let ew ← q? ew; let ns ← q? ns; let pct ← q? pct; let shape ← q? shape
+    let nscale ← q? nscale; let nk ← q? nk; let coef ← q? coef
+    let nmin ← q? nmin; let nmax ← q? nmax
+    some ({ rows := rows, cols := cols, ewRes := ew, nsRes := ns, dispersalStochasticity := stoch = "1",
+            dispersalPercentage := pct, shape := shape, naturalKernelType := decodeName nt, naturalScale := nscale,
+            naturalDirection := decodeName nd, naturalKappa := nk, useAnthropogenicKernel := false,
+            percentNaturalDispersal := 1, anthroKernelType := decodeName atype, anthroScale := 1,
+            anthroDirection := decodeName ad, anthroKappa := 0, networkMovement := "",
+            networkMinDistance := nmin, networkMaxDistance := nmax }, coef)
+  | _ => none
+
+/-- Property predicates of C17 (overpopulation kernel wiring) on the observed probe, then the
+    member-by-member comparison with `createOverpopulationKernel`. -/
+def checkOverpop (c : KernelConfig) (coef : Rat) (m : OverpopKernelDesc) (obs : List String) : String :=
+  match splitOnTok ";" obs with
+  | [[ot, ostoch], ["radial", rew, rns, rtype, rscale, rshape, vmA, vmB], ["deterministic", dtype, dew, dns, dscale, dshape],
+     ["uniform", rlo, rhi, clo, chi], ["neighbor", nd], ["network", tp, jp, omn, omx], [sample]] =>
+    match m.radial, m.deterministic, m.neighbor, m.network with
+    | .radial ew ns t scale dir kappa shape, .deterministic _ _ _ _ _ _, .neighbor ndir, .networkWalk mn mx jump =>
+      let ttok := tokOfType t
+      -- scale: natural_scale * leaving_scale_coefficient, for the radial and for the deterministic kernel
+      if hexRat? "scale" rscale ≠ some scale then
+        s!"PROPFAIL C17 overpopulation_kernel_scale radial kernel built with {rscale}; natural_scale {c.naturalScale} * leaving_scale_coefficient {coef} = {scale}"
+      else if hexRat? "scale" dscale ≠ some scale then
+        s!"PROPFAIL C17 overpopulation_kernel_scale deterministic kernel built with {dscale}; natural_scale {c.naturalScale} * leaving_scale_coefficient {coef} = {scale}"
+      else if hexRat? "shape" rshape ≠ some shape || hexRat? "shape" dshape ≠ some shape then
+        s!"PROPFAIL C17 overpopulation_kernel_shape radial {rshape} deterministic {dshape}; configured shape {shape}"
+      else if !(hexIsRat rew "ew" ew && hexIsRat rns "ns" ns) then
+        s!"PROPFAIL C17 overpopulation_kernel_resolution radial kernel built with {rew} {rns}; configuration has ew={ew} ns={ns}"
+      else if !(hexIsRat dew "ew" ew && hexIsRat dns "ns" ns) then
+        s!"PROPFAIL C17 overpopulation_kernel_resolution deterministic kernel built with {dew} {dns}; configuration has ew={ew} ns={ns}"
+      else if ot ≠ "type=" ++ ttok || rtype ≠ "type=" ++ ttok || dtype ≠ ttok then
+        s!"PROPFAIL C17 overpopulation_kernel_type selector {ot} radial {rtype} deterministic {dtype}; the natural kernel is {ttok}"
+      else if nd ≠ ndir.name then
+        s!"PROPFAIL C17 overpopulation_kernel_direction neighbour kernel built for {nd}; natural direction is {ndir.name}"
+      else
+        -- uniform member: destinations inside rows x cols, every cell reachable
+        match parseInts? [rlo, rhi, clo, chi] with
+        | some [rlo, rhi, clo, chi] =>
+          let k : UniformKernel := { rowMax := c.rows, colMax := c.cols, rowLo := rlo, rowHi := rhi, colLo := clo, colHi := chi }
+          if !uniformRangesOK c.rows c.cols k then
+            s!"PROPFAIL C17 overpopulation_kernel_uniform_range landscape {c.rows}x{c.cols}; uniform member draws rows {rlo}..{rhi} cols {clo}..{chi}"
+          else
+            let sampleRes : String :=
+              match (kv? "sample" sample).map (·.splitOn ":") with
+              | some ["na"] => if t = .uniform then "MISMATCH kern.overpop model=sample expected for the uniform kernel" else "ok"
+              | some [a, b, cc, d] =>
+                match parseInts? [a, b, cc, d] with
+                | some [rmin, rmax, cmin, cmax] =>
+                  if rmin < 0 || rmax ≥ c.rows || cmin < 0 || cmax ≥ c.cols then
+                    s!"PROPFAIL C17 overpopulation_kernel_uniform_range destinations span rows {rmin}..{rmax} cols {cmin}..{cmax} on a {c.rows}x{c.cols} landscape"
+                  else if rmin ≠ 0 || rmax ≠ c.rows - 1 || cmin ≠ 0 || cmax ≠ c.cols - 1 then
+                    s!"PROPFAIL C17 overpopulation_kernel_uniform_range destinations never reach an edge: rows {rmin}..{rmax} cols {cmin}..{cmax} on {c.rows}x{c.cols}"
+                  else "ok"
+                | _ => "BADLINE"
+              | _ => "BADLINE"
+            if sampleRes != "ok" then sampleRes
+            else
+              -- direction and concentration of the radial member, through scripted von Mises draws
+              let kf := ratToFloat kappa
+              match vmTok? "vmA" vmA, vmTok? "vmB" vmB, vmModel dir kf [ratToFloat (1 / 1048576), 0.0, 0.75], vmModel dir kf [0.5, 0.0, 0.25] with
+              | some (ta, na), some (tb, nb), some (xa, ka), some (xb, kb) =>
+                if !(ka = na && kb = nb && closeAbs xa ta 1e-9 && closeAbs xb tb 1e-9) then
+                  s!"PROPFAIL C17 overpopulation_kernel_direction angles {ta}:{na} {tb}:{nb} for scripted uniforms; natural direction={dir.name} kappa={kappa} give {xa}:{ka} {xb}:{kb}"
+                else if ostoch ≠ s!"stoch={if m.stochastic then 1 else 0}" then
+                  s!"PROPFAIL C17 overpopulation_kernel_type dispersal stochasticity {ostoch}; configured {m.stochastic}"
+                else if tp = "teleport=0" && jp = s!"jump={if jump then 1 else 0}" && hexIsRat omn "min" mn && hexIsRat omx "max" mx then "ok"
+                else s!"MISMATCH kern.overpop network model=walk jump={jump} min={mn} max={mx}"
+              | _, _, _, _ => "BADLINE"
+        | _ => "BADLINE"
+    | _, _, _, _ => "MISMATCH kern.overpop model has unexpected member kinds"
+  | _ => "BADLINE"
+
+def handleOverpop (inp obs : List String) : String :=
+  match overpopConfig? inp with
+  | none => "BADLINE"
+  | some (c, coef) =>
+    match createOverpopulationKernel c coef, obs with
+    | .error k, [e] => if e = errTok k then "ok" else s!"MISMATCH kern.overpop model={errTok k}"
+    | .error k, _ => s!"MISMATCH kern.overpop model={errTok k}"
+    | .ok m, [e] =>
+      -- the deterministic member's constructor computes its window (C14): gamma-based quantiles may fail
+      if e = errTok .invalid_argument && (m.type = .gamma || m.type = .exponentialPower) then "ok"
+      else s!"MISMATCH kern.overpop model=built observed={e}"
+    | .ok m, o => checkOverpop c coef m o
+
 def handle (st : State) (cmd : String) (inp obs : List String) : State × String :=
   let st := { st with lines := st.lines + 1 }
   let r :=
@@ -649,6 +744,7 @@ def handle (st : State) (cmd : String) (inp obs : List String) : State × String
     | "kern.radial" => handleRadial inp obs
     | "kern.switch" => handleSwitch inp obs
     | "kern.factory" => handleFactory inp obs
+    | "kern.overpop" => handleOverpop inp obs
     | _ => "BADLINE"
   (st, r)
 
